@@ -1,5 +1,5 @@
 PROP = dict(
-    coq=["Warc/WarcHarness.vo"],
+    coq=["Warc/WarcHarness.vo", "Pipe/PipeHarness.vo"],
     legs=[
         dict(driver="body", binary="zwarc", quick=1000, thorough=12000, shard=64,
              monitors=["body_drained (no error => every byte taken from the reader)",
@@ -12,10 +12,17 @@ PROP = dict(
              monitors=["accepted_stored_byte_exact_after_stop", "written_before_archived (WARC on disk at the arch.written point)",
                        "rejected_never_stored", "members_complete_and_files_finalised",
                        "all_accepted_written_when_seed_leaves_archiver", "attempts_le", "retry_rule (retry_iff: attempts follow the retry rule)"]),
+        # end to end: whole real crawls (controler.Start/Stop, local queue, all stages); at the instant a seed is
+        # reported finished the WARC files on disk are read with the independent reader (monitor 10)
+        dict(driver="pipe", quick=14, thorough=600, shard=7, noshrink=True,
+             monitors=["finished_exactly_once", "finished_only_when_tree_done", "no_fetch_after_finish", "every_built_request_fetched_before_pass_end",
+                       "in_flight_le_tokens", "reactor_idle_at_quiescence", "wellformed_at_stage_boundaries", "seed_in_one_place_at_a_time",
+                       "attempts_le_max_retry_plus_1", "redirect_chain_and_asset_depth_bounds",
+                       "accepted_responses_in_warc_when_seed_finished"]),
     ],
     search_mult=3,
     partial="Component-level slice plus a single-process archive-to-WARC leg: the full-pipeline ordering (finish message only "
-            "after the write) is checked by the end-to-end driver. The byte capture, record writing, gzip framing and the "
+            "after the write) is checked by the end-to-end leg 'pipe' (WARC files read at the instant of each fin.finished). The byte capture, record writing, gzip framing and the "
             "feedback channel are third-party (github.com/CorentinB/warc): in the proofs the recorder is an environment with the "
             "stated feedback contract; the warcleg leg validates it on every run against an independent WARC reader. "
             "C02_all_awaited holds only for the variant with fixes/C02-await-feedback.diff; the code as it is does not wait for "
